@@ -63,14 +63,14 @@ func c15CliGen(c *engine.C) engine.Case {
 		if i == 0 {
 			cm.Day = -1500 // late 2015: an age of three digits in months, next to two-digit and one-digit ages
 		}
-		cm.Author = []string{"Ann", "Bob Stone"}[c.Choose(2, pfx+"author")]
+		cm.Author = []string{"Ann", "Bob Stone"}[(c.Choose(2, pfx+"author")+i)%2] // authors alternate by default
 		cm.Subject = []string{"feat: work", "fix: repair", "misc cleanup"}[c.Choose(3, pfx+"subject")]
 		if i > 0 && c.Bool(pfx+"committed-recently") {
 			cm.Day = lateDay + i
 		}
 		menu := []string{"add"}
 		if len(exists) > 0 {
-			menu = []string{"add", "modify", "rename", "delete", "modify+add"}
+			menu = []string{"modify", "add", "rename", "delete", "modify+add"} // by default one file is touched by everybody
 		}
 		op := menu[c.Choose(len(menu), pfx+"op")]
 		fresh := fmt.Sprintf("d/f%d.txt", i)
@@ -103,7 +103,8 @@ func c15CliGen(c *engine.C) engine.Case {
 		}
 	}
 	flags := [][]string{{"-t"}, {"-a"}, {"-o"}, {"-b"}, {"-b", "-t", "-a", "-o"}, {"-t", "-a"}, {"-a", "-o"}}[c.Choose(7, "tables")]
-	cut := c.Bool("full-with-size-1")
+	size := []int{0, 1, 20, 2}[c.Choose(4, "full-with-size")]
+	cut := size > 0
 	return func() engine.Result {
 		var desc []string
 		for _, cm := range h {
@@ -115,7 +116,7 @@ func c15CliGen(c *engine.C) engine.Case {
 		}
 		args := append([]string{"git"}, flags...)
 		if cut {
-			args = append(args, "-f", "-s", "1")
+			args = append(args, "-f", "-s", strconv.Itoa(size))
 		}
 		res := engine.Result{InputKey: strings.Join(desc, "\n") + strings.Join(args, " "), Input: map[string]interface{}{"history": desc, "command": "coca " + strings.Join(args, " ")}, Nontrivial: true}
 		root, err := os.MkdirTemp(tmpRoot(), "mcgitcli")
@@ -155,8 +156,8 @@ func c15CliGen(c *engine.C) engine.Case {
 			return res
 		}
 		limit := func(n int) int {
-			if cut && n > 1 {
-				return 1
+			if cut && n > size {
+				return size
 			}
 			return n
 		}
@@ -196,7 +197,7 @@ func c15CliGen(c *engine.C) engine.Case {
 					}
 				}
 				// a cut table keeps the head of the order
-				if cut && len(want) > 1 {
+				if cut && size == 1 && len(want) > 1 {
 					top := key(want[0])
 					for _, w := range want {
 						if key(w) > top {
@@ -250,7 +251,7 @@ func c15CliGen(c *engine.C) engine.Case {
 						break
 					}
 				}
-				if cut && len(t.Rows) == 1 && len(want) > 1 {
+				if cut && size == 1 && len(t.Rows) == 1 && len(want) > 1 {
 					oldest := gitapp.CalculateCodeAge(msgs)
 					first := oldest[0].Age
 					for _, o := range oldest {
